@@ -207,6 +207,15 @@ class Env:
                 ops[place["p"][0]["f"]] = val
                 self.loc[place["l"]] = ("agg", cur[1], cur[2], tuple(ops), cur[4] if len(cur) > 4 else None)
                 return
+        # element update of a known array aggregate at a constant index: c[2] = x
+        if len(place["p"]) == 1 and isinstance(place["p"][0], dict) and ("i" in place["p"][0] or "ci" in place["p"][0]):
+            cur = self.loc.get(place["l"])
+            ix = self.local(place["p"][0]["i"]) if "i" in place["p"][0] else K(place["p"][0]["ci"], "usize")
+            if isinstance(cur, tuple) and cur[0] == "agg" and cur[1] == "array" and is_const(ix) and isinstance(ix[1], int) and 0 <= ix[1] < len(cur[3]):
+                ops = list(cur[3])
+                ops[ix[1]] = val
+                self.loc[place["l"]] = ("agg", cur[1], cur[2], tuple(ops), cur[4] if len(cur) > 4 else None)
+                return
         # build lvalue like read()
         val0 = self.local(place["l"])
         lv = ("loc", place["l"])
